@@ -416,3 +416,112 @@ Theorem C16_table_lookup_nonvacuous :
 Proof. exact PathTableBlocks.lookup_hyps_example. Qed.
 Print Assumptions C16_table_lookup_nonvacuous.
 (* ---- end of the powershell / elvish block ---- *)
+(* ---- fish generator model ---- *)
+(** [Complete/FishModel.v] is a byte-exact model of clap_complete/src/aot/shells/fish.rs (compared with
+    the real generator's file on every run, stream [fish-model]); the file is a list of lines, a line a
+    list of pieces: [short_word s] = [ -s s], [long_word l] = [ -l escape_string(l)],
+    [value_word v] = [escape_string(v, comma)\t'] inside the [-a "..."] list, [sub_word w] = [ -a "w"].
+    [cdesc] carries the description texts; they play no role in what is mentioned. *)
+From ClapModel Require Import Complete.FishModel Complete.FishProofs.
+
+(** generation is total: the only failure of the generator proper is the missing bin name
+    ([expect]), and [generate] = [set_bin_name] + [build] + generator fails only if [build] does *)
+Theorem C16_fish_total : forall c d, fish_script c d = None <-> c_bin c = None.
+Proof. exact fish_script_total. Qed.
+Print Assumptions C16_fish_total.
+
+Theorem C16_fish_generate_total : forall c d bin,
+  generate_fish c d bin = None <-> build (set_bin_name c bin) = None.
+Proof. exact generate_fish_total. Qed.
+Print Assumptions C16_fish_generate_total.
+
+Theorem C16_fish_deterministic : forall c1 c2 d1 d2 b1 b2,
+  c1 = c2 -> d1 = d2 -> b1 = b2 -> generate_fish c1 d1 b1 = generate_fish c2 d2 b2.
+Proof. exact generate_fish_deterministic. Qed.
+Print Assumptions C16_fish_deterministic.
+
+(** for every tree with a bin name (every [linked] built tree has one), for the root ([ws = []]) and every
+    node reached by one or two words, each a name or a visible alias: the template of that path exists;
+    every named argument of the node has a line that starts with it and carries every spelling
+    [Arg::get_short_and_visible_aliases] / [get_long_and_visible_aliases] return and every non-hidden
+    possible value; every name and visible alias of every subcommand of the node has a line [-a "word"] *)
+Theorem C16_fish_mentions : forall c d bin ws ns n,
+  c_bin c = Some bin -> reach c ws ns n -> (List.length ws <= 2)%nat ->
+  exists lines basic,
+    fish_lines c d = Some lines /\
+    basic_template bin (fish_needs bin c) (fish_using bin c) ws n = Some basic /\
+    (forall o, In o (c_args n) -> a_is_positional o = false ->
+       exists line, In line lines /\ hd_error line = Some (Fx basic) /\
+         (forall l s, get_short_and_visible_aliases o = Some l -> In s l -> In (short_word s) line) /\
+         (forall l s, get_long_and_visible_aliases o = Some l -> In s l -> In (long_word s) line) /\
+         (forall vs v, possible_values o = Some vs -> In v vs -> pv_hide v = false ->
+                       In (value_word (pv_name v)) line)) /\
+    (forall sc w, In sc (c_subs n) -> In w (get_name_and_visible_aliases sc) ->
+       exists line, In line lines /\ hd_error line = Some (Fx (sub_template basic n)) /\ In (sub_word w) line).
+Proof. exact fish_mentions. Qed.
+Print Assumptions C16_fish_mentions.
+
+(** the property's wording, in the class [aliases_have_primary]: every short, long and visible alias *)
+Theorem C16_fish_mentions_all_spellings : forall c d bin ws ns n,
+  c_bin c = Some bin -> reach c ws ns n -> (List.length ws <= 2)%nat -> aliases_have_primary n ->
+  exists lines, fish_lines c d = Some lines /\
+    forall o, In o (c_args n) -> a_is_positional o = false ->
+      exists line, In line lines /\
+        (forall s, a_short o = Some s \/ In (s, true) (a_short_aliases o) -> In (short_word s) line) /\
+        (forall s, a_long o = Some s \/ In (s, true) (a_aliases o) -> In (long_word s) line).
+Proof. exact fish_mentions_all_spellings. Qed.
+Print Assumptions C16_fish_mentions_all_spellings.
+
+(** a piece of a line is a contiguous part of the bytes of the file *)
+Theorem C16_fish_mention_in_text : forall c d lines line p,
+  fish_lines c d = Some lines -> In line lines -> In p line ->
+  exists s pre post, fish_script c d = Some s /\ s = pre ++ render1 p ++ post.
+Proof. exact fish_mention_in_text. Qed.
+Print Assumptions C16_fish_mention_in_text.
+
+(** the hypotheses are satisfiable: two levels, hyphenated name, visible and hidden aliases, an option
+    with short, long, visible aliases and possible values, reached through a visible alias *)
+Theorem C16_fish_mentions_nonvacuous :
+  c_bin ex_fish_root = Some [112] /\ reach ex_fish_root [[120]; [99]] [[97; 45; 98]; [99]] ex_fish_leaf /\
+  (List.length [[120]; [99]] <= 2)%nat /\ aliases_have_primary ex_fish_leaf /\
+  In ex_opt (c_args ex_fish_leaf) /\ a_is_positional ex_opt = false /\
+  get_short_and_visible_aliases ex_opt = Some [[111]; [120]] /\
+  get_long_and_visible_aliases ex_opt = Some [[111; 112; 116]; [97; 108]] /\
+  possible_values ex_opt = Some [mkPv [118; 49] false; mkPv [118; 50] true].
+Proof. exact fish_mentions_hyps. Qed.
+Print Assumptions C16_fish_mentions_nonvacuous.
+
+(** what the code does below the second level of subcommands: nothing is written, for the command
+    three words down and for everything below it ... *)
+Theorem C16_fish_deeper_levels_silent : forall root nds usg parents c d,
+  (3 <= List.length parents)%nat -> gen_fish_inner root nds usg parents c d = [].
+Proof. exact gen_fish_inner_deep. Qed.
+Print Assumptions C16_fish_deeper_levels_silent.
+
+(** ... so a flag of a third-level command is mentioned nowhere (its name is: a line of its parent) *)
+Theorem C16_fish_third_level_refuted :
+  exists c d bin lines ws ns n o s,
+    c_bin c = Some bin /\ fish_lines c d = Some lines /\ reach c ws ns n /\ List.length ws = 3%nat /\
+    In o (c_args n) /\ a_short o = Some s /\ ~ mentions lines (short_word s) /\
+    mentions lines (sub_word (c_name n)).
+Proof. exact fish_third_level_not_written. Qed.
+Print Assumptions C16_fish_third_level_refuted.
+
+(** class boundary [alias-without-primary]: outside [aliases_have_primary] a visible short alias is
+    written nowhere in the fish file *)
+Theorem C16_fish_alias_without_primary_refuted :
+  exists c d bin lines o s,
+    c_bin c = Some bin /\ fish_lines c d = Some lines /\ In o (c_args c) /\ a_is_positional o = false /\
+    In (s, true) (a_short_aliases o) /\ ~ mentions lines (short_word s).
+Proof. exact fish_alias_without_primary_refuted. Qed.
+Print Assumptions C16_fish_alias_without_primary_refuted.
+
+(** [generate] = [set_bin_name] + [build] + generator: the file it writes is the file of the built tree, which
+    has the bin name -- so [C16_fish_mentions] speaks about what [generate_fish] writes *)
+From ClapModel Require Import Complete.FishBuildProofs.
+Theorem C16_fish_generate_is_built : forall c d bin b,
+  build (set_bin_name c bin) = Some b ->
+  c_bin b = Some bin /\ generate_fish c d bin = fish_script b (dbuild (set_bin_name c bin) d).
+Proof. exact generate_fish_is_built. Qed.
+Print Assumptions C16_fish_generate_is_built.
+(* ---- end fish generator model ---- *)
